@@ -1,11 +1,14 @@
 // Send-level driver for property C11: the REAL GossipSubRouter.sendRPC is run
 // (inside the event loop of a real gossipsub node, through
-// PubSub.VerifSendRPC) towards a peer that exists as an outbound queue only.
-// Recorded per case: the input, the limit (maximum message size), what was
-// queued for the wire (shapes and sizes, in queue order), how many times the
-// tracer's DropRPC / SendRPC callbacks ran, and - as a measurement - the size
-// every single input element would have as an RPC of its own. TLC judges
-// (spec/split/SplitTrace.tla, SendVerdict of SplitRel.tla).
+// PubSub.VerifSendRPCQ) towards a peer that exists as an outbound queue only
+// (unbounded, or bounded so that the "queue full" drop path is taken).
+// Recorded per case: the input, the limit (maximum message size), the queue
+// capacity, what was queued for the wire (shapes and sizes, in queue order),
+// every drop REPORT - the content of the RPC handed to RawTracer.DropRPC,
+// snapshotted inside the callback (the object is altered afterwards), and the
+// meta of the DROP_RPC event handed to the EventTracer - and the GRAFT/PRUNE
+// sendRPC kept for a retry. TLC judges (spec/split/SplitTrace.tla, SendVerdict
+// of SplitRel.tla).
 package c11
 
 import (
@@ -13,6 +16,7 @@ import (
 	"fmt"
 	"math/rand"
 	"runtime/debug"
+	"strings"
 	"testing"
 
 	"github.com/libp2p/go-libp2p"
@@ -25,103 +29,86 @@ import (
 	"verifharness/vh"
 )
 
-// dropCounter is a RawTracer that counts the RPC-level callbacks.
-type dropCounter struct{ drops, sends int }
+// sendTracer is a RawTracer and an EventTracer. Both run synchronously inside the event loop.
+// It snapshots, INSIDE the callbacks, what is reported as dropped.
+type sendTracer struct {
+	drops, sends int
+	rep          []vh.M // content of the RPCs handed to RawTracer.DropRPC
+	dsizes       []int  // their Size() at that moment
+	evt          []vh.M // meta of the DROP_RPC trace events
+}
 
-func (d *dropCounter) AddPeer(peer.ID, protocol.ID)               {}
-func (d *dropCounter) RemovePeer(peer.ID)                         {}
-func (d *dropCounter) OnNewInboundStream(peer.ID, protocol.ID)    {}
-func (d *dropCounter) OnClosedInboundStream(peer.ID, protocol.ID) {}
-func (d *dropCounter) OnNewOutboundStream(peer.ID, protocol.ID)   {}
-func (d *dropCounter) OnClosedOutboundStream(peer.ID)             {}
-func (d *dropCounter) Join(string)                                {}
-func (d *dropCounter) Leave(string)                               {}
-func (d *dropCounter) Graft(peer.ID, string)                      {}
-func (d *dropCounter) Prune(peer.ID, string)                      {}
-func (d *dropCounter) ValidateMessage(*pubsub.Message)            {}
-func (d *dropCounter) DeliverMessage(*pubsub.Message)             {}
-func (d *dropCounter) RejectMessage(*pubsub.Message, string)      {}
-func (d *dropCounter) DuplicateMessage(*pubsub.Message)           {}
-func (d *dropCounter) ThrottlePeer(peer.ID)                       {}
-func (d *dropCounter) RecvRPC(*pubsub.RPC)                        {}
-func (d *dropCounter) SendRPC(*pubsub.RPC, peer.ID)               { d.sends++ }
-func (d *dropCounter) DropRPC(*pubsub.RPC, peer.ID)               { d.drops++ }
-func (d *dropCounter) UndeliverableMessage(*pubsub.Message)       {}
+func (d *sendTracer) reset() { d.rep, d.dsizes, d.evt = []vh.M{}, []int{}, []vh.M{} }
 
-// aloneSizes measures, for every element of the RPC, the size of an RPC that
-// carries just that element (same layout as the content shape).
-func aloneSizes(r *pb.RPC) vh.M {
-	sh := vh.M{"ctl": r.Control != nil}
-	put := func(k string, n int, v any) {
-		if n > 0 {
-			sh[k] = v
-		}
+func (d *sendTracer) AddPeer(peer.ID, protocol.ID)               {}
+func (d *sendTracer) RemovePeer(peer.ID)                         {}
+func (d *sendTracer) OnNewInboundStream(peer.ID, protocol.ID)    {}
+func (d *sendTracer) OnClosedInboundStream(peer.ID, protocol.ID) {}
+func (d *sendTracer) OnNewOutboundStream(peer.ID, protocol.ID)   {}
+func (d *sendTracer) OnClosedOutboundStream(peer.ID)             {}
+func (d *sendTracer) Join(string)                                {}
+func (d *sendTracer) Leave(string)                               {}
+func (d *sendTracer) Graft(peer.ID, string)                      {}
+func (d *sendTracer) Prune(peer.ID, string)                      {}
+func (d *sendTracer) ValidateMessage(*pubsub.Message)            {}
+func (d *sendTracer) DeliverMessage(*pubsub.Message)             {}
+func (d *sendTracer) RejectMessage(*pubsub.Message, string)      {}
+func (d *sendTracer) DuplicateMessage(*pubsub.Message)           {}
+func (d *sendTracer) ThrottlePeer(peer.ID)                       {}
+func (d *sendTracer) RecvRPC(*pubsub.RPC)                        {}
+func (d *sendTracer) SendRPC(*pubsub.RPC, peer.ID)               { d.sends++ }
+func (d *sendTracer) UndeliverableMessage(*pubsub.Message)       {}
+
+func (d *sendTracer) DropRPC(rpc *pubsub.RPC, _ peer.ID) {
+	d.drops++
+	d.rep = append(d.rep, shapeOf(&rpc.RPC))
+	d.dsizes = append(d.dsizes, rpc.Size())
+}
+
+// Trace receives every trace event; the DROP_RPC ones carry the public drop report.
+func (d *sendTracer) Trace(evt *pb.TraceEvent) {
+	if evt.GetType() != pb.TraceEvent_DROP_RPC {
+		return
 	}
-	one := func(x pb.RPC) int { return x.Size() }
-	ctl := func(c pb.ControlMessage) int { return one(pb.RPC{Control: &c}) }
-	var pub, subs, graft, prune, ext, partial, testext []int
-	var ihave []vh.M
-	var iwant, idw [][]int
-	for _, m := range r.Publish {
-		pub = append(pub, one(pb.RPC{Publish: []*pb.Message{m}}))
+	m := evt.GetDropRPC().GetMeta()
+	sh := vh.M{"ctl": m.GetControl() != nil}
+	ids := func(raw [][]byte) []string {
+		out := make([]string, 0, len(raw))
+		for _, b := range raw {
+			out = append(out, idKey(string(b)))
+		}
+		return out
 	}
-	for _, s := range r.Subscriptions {
-		subs = append(subs, one(pb.RPC{Subscriptions: []*pb.RPC_SubOpts{s}}))
+	c := m.GetControl()
+	if n := len(c.GetIhave()); n > 0 {
+		l := []vh.M{}
+		for _, h := range c.GetIhave() {
+			l = append(l, vh.M{"t": topicKey(h.Topic), "ids": ids(h.MessageIDs)})
+		}
+		sh["ihave"] = l
 	}
-	if c := r.Control; c != nil {
-		for _, g := range c.Graft {
-			graft = append(graft, ctl(pb.ControlMessage{Graft: []*pb.ControlGraft{g}}))
+	if n := len(c.GetIwant()); n > 0 {
+		l := [][]string{}
+		for _, w := range c.GetIwant() {
+			l = append(l, ids(w.MessageIDs))
 		}
-		for _, p := range c.Prune {
-			prune = append(prune, ctl(pb.ControlMessage{Prune: []*pb.ControlPrune{p}}))
-		}
-		for _, h := range c.Ihave {
-			ids := []int{}
-			for _, id := range h.MessageIDs {
-				ids = append(ids, ctl(pb.ControlMessage{Ihave: []*pb.ControlIHave{{TopicID: h.TopicID, MessageIDs: []string{id}}}}))
-			}
-			ihave = append(ihave, vh.M{"t": 0, "ids": ids})
-		}
-		for _, w := range c.Iwant {
-			ids := []int{}
-			for _, id := range w.MessageIDs {
-				ids = append(ids, ctl(pb.ControlMessage{Iwant: []*pb.ControlIWant{{MessageIDs: []string{id}}}}))
-			}
-			iwant = append(iwant, ids)
-		}
-		for _, d := range c.Idontwant {
-			ids := []int{}
-			for _, id := range d.MessageIDs {
-				ids = append(ids, ctl(pb.ControlMessage{Idontwant: []*pb.ControlIDontWant{{MessageIDs: []string{id}}}}))
-			}
-			idw = append(idw, ids)
-		}
-		if c.Extensions != nil {
-			ext = append(ext, ctl(pb.ControlMessage{Extensions: c.Extensions}))
-		}
+		sh["iwant"] = l
 	}
-	if r.Partial != nil {
-		partial = append(partial, one(pb.RPC{Partial: r.Partial}))
+	if n := len(c.GetIdontwant()); n > 0 {
+		l := [][]string{}
+		for _, w := range c.GetIdontwant() {
+			l = append(l, ids(w.MessageIDs))
+		}
+		sh["idw"] = l
 	}
-	if r.TestExtension != nil {
-		testext = append(testext, one(pb.RPC{TestExtension: r.TestExtension}))
-	}
-	put("pub", len(pub), pub)
-	put("subs", len(subs), subs)
-	put("graft", len(graft), graft)
-	put("prune", len(prune), prune)
-	put("ihave", len(ihave), ihave)
-	put("iwant", len(iwant), iwant)
-	put("idw", len(idw), idw)
-	put("ext", len(ext), ext)
-	put("partial", len(partial), partial)
-	put("testext", len(testext), testext)
-	return sh
+	// the meta names messages by id and GRAFT/PRUNE/subscriptions by topic: only their numbers are compared
+	sh["n"] = []int{len(m.GetMessages()), len(m.GetSubscription()), len(c.GetGraft()), len(c.GetPrune())}
+	d.evt = append(d.evt, sh)
 }
 
 type sendRig struct {
 	ps  *pubsub.PubSub
-	tr  *dropCounter
+	tr  *sendTracer
 	out *vh.Out
 	to  peer.ID
 }
@@ -134,8 +121,8 @@ func newSendRig(t *testing.T, out *vh.Out) *sendRig {
 	t.Cleanup(func() { h.Close() })
 	ctx, cancel := context.WithCancel(context.Background())
 	t.Cleanup(cancel)
-	tr := &dropCounter{}
-	ps, err := pubsub.NewGossipSub(ctx, h, pubsub.WithRawTracer(tr))
+	tr := &sendTracer{}
+	ps, err := pubsub.NewGossipSub(ctx, h, pubsub.WithRawTracer(tr), pubsub.WithEventTracer(tr))
 	if err != nil {
 		t.Fatal(err)
 	}
@@ -145,12 +132,15 @@ func newSendRig(t *testing.T, out *vh.Out) *sendRig {
 // sendCase runs sendRPC once. Everything is read inside the event loop, in the same
 // evaluation as the call, so nothing else of the node interleaves.
 //
+// queueCap < 0: the peer's outbound queue is unbounded; otherwise it takes queueCap RPCs and every
+// further RPC is dropped by doSendRPC ("queue full").
+//
 // With piggy set, the PRUNEs and the IHAVEs of the built RPC are not handed to sendRPC inside the
 // RPC but left waiting for the peer (control retry, pending gossip), so that sendRPC piggybacks them:
-// what has to reach the queue is the same content, and "inp"/"insize" describe the whole of it.
-func (r *sendRig) sendCase(t *testing.T, id, src string, limit int, build func() pb.RPC, extra vh.M, piggy bool) {
+// what has to be accounted for is the same content, and "inp"/"insize" describe the whole of it.
+func (r *sendRig) sendCase(t *testing.T, id, src string, limit, queueCap int, build func() pb.RPC, extra vh.M, piggy bool) {
 	in := build()
-	line := vh.M{"e": "send", "id": id, "src": src, "limit": limit, "inp": shapeOf(&in), "alone": aloneSizes(&in), "insize": in.Size()}
+	line := vh.M{"e": "send", "id": id, "src": src, "limit": limit, "cap": queueCap, "inp": shapeOf(&in), "insize": in.Size()}
 	rest := in
 	rest.Publish = nil
 	line["rest"] = rest.Size()
@@ -179,19 +169,23 @@ func (r *sendRig) sendCase(t *testing.T, id, src string, limit int, build func()
 	shapes, sizes := []vh.M{}, []int{}
 	err := r.ps.VerifEval(func() {
 		d0, s0 := r.tr.drops, r.tr.sends
+		r.tr.reset()
 		defer func() {
 			if p := recover(); p != nil {
 				line["panic"] = fmt.Sprint(p)
 				line["stack"] = libFrames(string(debug.Stack()))
 			}
 			line["drops"], line["sends"] = r.tr.drops-d0, r.tr.sends-s0
+			line["rep"], line["dsizes"], line["evt"] = r.tr.rep, r.tr.dsizes, r.tr.evt
+			r.tr.reset()
 		}()
-		queued, retry := r.ps.VerifSendRPC(r.to, rpc, false, limit, pendingCtl, pendingGossip)
+		queued, retry := r.ps.VerifSendRPCQ(r.to, rpc, false, limit, queueCap, pendingCtl, pendingGossip)
 		for _, q := range queued {
 			shapes = append(shapes, shapeOf(&q.RPC))
 			sizes = append(sizes, q.Size())
 		}
-		line["retry_graft"], line["retry_prune"] = len(retry.GetGraft()), len(retry.GetPrune())
+		// what sendRPC left in gs.control for the peer (GRAFT/PRUNE to be piggybacked onto a later RPC)
+		line["retry"] = shapeOf(&pb.RPC{Control: retry})
 	})
 	if err != nil {
 		t.Fatalf("VerifEval: %v", err)
@@ -200,12 +194,93 @@ func (r *sendRig) sendCase(t *testing.T, id, src string, limit int, build func()
 	r.out.Emit(line)
 }
 
-// TestC11Send replays a part of the TLC-generated (shape, limit) cases and seeded random RPCs
-// through the real sendRPC.
+// giantRPC builds an RPC of ordinary elements in which one message id (or one id of each of the three
+// gossip kinds, kind "all") is larger than the limit by itself. pos: "only" (the RPC is that id alone),
+// "first" / "middle" / "last" (position of the giant id among three ordinary ids of its entry, with
+// ordinary elements of every kind before and after it in the RPC).
+func giantRPC(kind, pos string, limit int) func() pb.RPC {
+	return func() pb.RPC {
+		n := 0
+		id := func(l string, size int) string {
+			n++
+			return text(fmt.Sprintf("%s%d.", l, n), size)
+		}
+		place := func(l string, giant bool) []string {
+			small := []string{id(l, 32), id(l, 20), id(l, 40)}
+			if !giant {
+				return small
+			}
+			g := id(strings.ToUpper(l)+"GIANT", 2*limit+17)
+			switch pos {
+			case "only":
+				return []string{g}
+			case "first":
+				return append([]string{g}, small...)
+			case "middle":
+				return []string{small[0], g, small[1], small[2]}
+			}
+			return append(small, g)
+		}
+		is := func(k string) bool { return kind == k || kind == "all" }
+		tA, tB := "topic-A", "topic-B"
+		c := &pb.ControlMessage{}
+		if pos == "only" {
+			switch kind {
+			case "ihave":
+				c.Ihave = []*pb.ControlIHave{{TopicID: &tA, MessageIDs: place("h", true)}}
+			case "iwant":
+				c.Iwant = []*pb.ControlIWant{{MessageIDs: place("w", true)}}
+			default:
+				c.Idontwant = []*pb.ControlIDontWant{{MessageIDs: place("d", true)}}
+			}
+			return pb.RPC{Control: c}
+		}
+		tru := true
+		bo := uint64(60)
+		c.Graft = []*pb.ControlGraft{{TopicID: &tA}, {TopicID: &tB}}
+		c.Prune = []*pb.ControlPrune{{TopicID: &tA, Backoff: &bo}, {TopicID: &tB, Peers: []*pb.PeerInfo{{PeerID: []byte(id("peer", 38))}}}}
+		c.Ihave = []*pb.ControlIHave{{TopicID: &tA, MessageIDs: place("h", is("ihave"))}, {TopicID: &tB, MessageIDs: []string{id("h", 32)}}}
+		c.Iwant = []*pb.ControlIWant{{MessageIDs: place("w", is("iwant"))}}
+		c.Idontwant = []*pb.ControlIDontWant{{MessageIDs: place("d", is("idw"))}, {MessageIDs: []string{id("d", 32)}}}
+		c.Extensions = &pb.ControlExtensions{PartialMessages: &tru}
+		return pb.RPC{
+			Publish:       []*pb.Message{{Data: []byte(id("data", 60)), Topic: &tA}, {Data: []byte(id("data", 40)), Topic: &tB}},
+			Subscriptions: []*pb.RPC_SubOpts{{Subscribe: &tru, Topicid: &tA}, {Subscribe: &tru, Topicid: &tB}},
+			Control:       c,
+			Partial:       &pb.PartialMessagesExtension{TopicID: &tA, GroupID: []byte("group")},
+			TestExtension: &pb.TestExtension{},
+		}
+	}
+}
+
+// TestC11Send replays a part of the TLC-generated (shape, limit) cases, the "one message id larger than
+// the limit" classes and seeded random RPCs through the real sendRPC, with unbounded and with small queues.
 func TestC11Send(t *testing.T) {
 	shapes := vh.ReadScenarios[shapeIn](t, "VERIF_IN")
 	out := vh.NewOut(t, "VERIF_OUT")
 	rig := newSendRig(t, out)
+
+	// 1. a single gossip id that cannot fit by itself, alone and with fitting elements before and after it
+	for _, kind := range []string{"ihave", "iwant", "idw", "all"} {
+		for _, pos := range []string{"only", "first", "middle", "last"} {
+			if kind == "all" && pos == "only" {
+				continue
+			}
+			for _, lim := range []int{200, 4096} {
+				for _, qc := range []int{-1, 0, 1, 3} {
+					for _, piggy := range []bool{false, true} {
+						if piggy && (kind == "iwant" || kind == "idw") && qc >= 0 {
+							continue
+						}
+						rig.sendCase(t, fmt.Sprintf("sg-%s-%s-%d-q%d-%v", kind, pos, lim, qc, piggy), "giant", lim, qc,
+							giantRPC(kind, pos, lim), vh.M{"giant": kind, "pos": pos}, piggy)
+					}
+				}
+			}
+		}
+	}
+
+	// 2. TLC shapes: unbounded queue, and (every other selected case) a queue of 0, 1 or 2 RPCs
 	for _, s := range shapes {
 		build := concretise(t, s.Abs)
 		for i, lim := range s.Lims {
@@ -214,9 +289,16 @@ func TestC11Send(t *testing.T) {
 				continue
 			}
 			// every other case with the PRUNEs / IHAVEs arriving by piggybacking
-			rig.sendCase(t, fmt.Sprintf("st%d-%d", s.Sid, lim), "tlc", lim, build, vh.M{"sid": s.Sid}, (i+s.Sid)%2 == 0)
+			piggy := (i+s.Sid)%2 == 0
+			rig.sendCase(t, fmt.Sprintf("st%d-%d", s.Sid, lim), "tlc", lim, -1, build, vh.M{"sid": s.Sid}, piggy)
+			if (i/2+s.Sid)%2 == 0 {
+				qc := (i + s.Sid/2) % 3
+				rig.sendCase(t, fmt.Sprintf("sq%d-%d-c%d", s.Sid, lim, qc), "tlc", lim, qc, build, vh.M{"sid": s.Sid}, !piggy)
+			}
 		}
 	}
+
+	// 3. seeded random RPCs
 	seed := vh.Seed()
 	nCases := vh.EnvInt("VERIF_C11_RANDOM", 150)
 	profiles := []profile{
@@ -227,6 +309,7 @@ func TestC11Send(t *testing.T) {
 		{msgs: 5, msgMax: 200, subs: 4, grafts: 4, prunes: 3, entries: 5, idsPer: 6, degenerate: true},
 		{msgs: 3, msgMax: 20000, subs: 3, grafts: 3, prunes: 3, entries: 4, idsPer: 30},
 		{msgs: 1, msgMax: 64, subs: 1, grafts: 1, prunes: 1, entries: 2, idsPer: 3},
+		{msgs: 3, msgMax: 300, subs: 3, grafts: 3, prunes: 3, entries: 4, idsPer: 8, giant: true},
 	}
 	for c := 0; c < nCases; c++ {
 		p := profiles[c%len(profiles)]
@@ -241,6 +324,9 @@ func TestC11Send(t *testing.T) {
 		rs := rest.Size()
 		lr := rand.New(rand.NewSource(seed*7927 + int64(c)))
 		cand := []int{size, size - 1, size + 1, rs, rs + 1, size / 2, size / 3, rs / 2, 300 + lr.Intn(1500), 1024}
+		if p.giant {
+			cand = append(cand, 2048, 4096, 1200)
+		}
 		for _, e := range elementSizes(&probe) {
 			cand = append(cand, e-1, e)
 		}
@@ -252,7 +338,12 @@ func TestC11Send(t *testing.T) {
 				continue
 			}
 			used[lim] = true
-			rig.sendCase(t, fmt.Sprintf("sr%d.%d-%d", seed, c, lim), "rand", lim, mk, vh.M{"profile": c % len(profiles)}, (c+k)%2 == 0)
+			piggy := (c+k)%2 == 0
+			rig.sendCase(t, fmt.Sprintf("sr%d.%d-%d", seed, c, lim), "rand", lim, -1, mk, vh.M{"profile": c % len(profiles)}, piggy)
+			if k%2 == 0 {
+				qc := lr.Intn(4)
+				rig.sendCase(t, fmt.Sprintf("sq%d.%d-%d-c%d", seed, c, lim, qc), "rand", lim, qc, mk, vh.M{"profile": c % len(profiles)}, !piggy)
+			}
 			if k++; k >= 4 {
 				break
 			}
